@@ -1059,7 +1059,10 @@ import const_translate  # noqa: E402
 CONST_TIE_TRUST = ("static tie of the constant tables (lib/const_translate.py): its reading and evaluation of the Rust fragment the "
                    "sites are written in (literals, ranges, `|` patterns, matches!, match/if, casts, struct literals, enum paths), "
                    "and that agreement on the evaluated code points (char_domain: U+0000..U+02FF and boundary points up to U+10FFFF) "
-                   "extends to all code points on the source side")
+                   "extends to all code points on the source side; for the executed sites (leaf_*: null, boolean, parse_hex4, array and "
+                   "object functions, the string scanner, the number parser) the translator's stub of `Parser` (look-ahead, position, "
+                   "begin_fragment / end_fragment, skip_whitespaces, failing items: a hand restatement of src/parse/mod.rs) and its "
+                   "evaluation of match / loop / while-let / break-with-value / `?` / Option::take")
 for _pid in const_translate.PROPS_CONCERNED:
     _sites = [s for s in const_translate.SITES if _pid in s["props"]]
     PROPS[_pid]["pre_build"] = [const_translate.hook(_pid)]
